@@ -49,7 +49,7 @@ def run_property(prop, tier, seed, replay=None):
             if f['kernel'] in used:
                 broken.append({'kind': 'translation-failed', 'kernel': f['kernel'], 'file': f['file'],
                                'func': f['func'], 'why': f['why']})
-        bad_src = vlib.forbidden_source_scan()
+        bad_src = vlib.forbidden_source_scan(only=vlib.cone_of(prop, ['Num/FloatInst.vo'] + list(getattr(P, 'COQ_TARGETS', []))))
         if bad_src:
             broken.append({'kind': 'forbidden-construct', 'where': bad_src[:10]})
         ok, log = vlib.coq_make([f'Props/{prop}.vo', 'Num/FloatInst.vo'] + [t for t in getattr(P, 'COQ_TARGETS', [])])
